@@ -33,9 +33,29 @@ if os.path.isdir(sd):
             continue
         m = json.load(open(mp))
         c = m.get("confirmed", {})
+        nt = os.path.join(sd, d, "notes.md")
+        if os.path.exists(nt):
+            ls = open(nt).read().splitlines()
+            body = [l.strip() for l in ls if l.strip() and not l.startswith("#")]
+            if not m.get("summary") and body:
+                m["summary"] = re.sub(r"^\**(one-sentence )?summary:?\**:?\s*", "", body[0], flags=re.I)[:260]
+            if not m.get("needs_to_manifest"):
+                for i, l in enumerate(ls):
+                    if re.search(r"manifest|trigger|needs", l, re.I) and (l.startswith("#") or l.startswith("**") or re.match(r"^\(?[a-e]\)", l.strip())):
+                        para = []
+                        for l2 in ls[i + 1:]:
+                            if l2.startswith("#") and para:
+                                break
+                            if l2.strip():
+                                para.append(l2.strip())
+                            elif para:
+                                break
+                        if para:
+                            m["needs_to_manifest"] = " ".join(para)[:260]
+                            break
         conf = "%s / %s / %s" % ("yes" if c.get("builds") else "NO", "yes" if c.get("suite_ok") else "NO", "yes" if c.get("demo_ok") else "NO")
         rb = ", ".join("%s (%s)" % (k, "; ".join(sorted({re.search(r"\[(\w[\w-]*)\]", v).group(1) for v in m["checks"][k]["violations"] if re.search(r"\[(\w[\w-]*)\]", v)}))) for k in m.get("detected_by", [])) or "**missed**"
-        lines.append("| %s | %s | %s | %s | %s | %s |" % (d, m.get("property"), m.get("summary", "").replace("|", "\\|"), m.get("needs_to_manifest", "").replace("|", "\\|"), conf, rb))
+        lines.append("| %s | %s | %s | %s | %s | %s |" % (d, m.get("property"), (m.get("summary") or "").replace("|", "\\|").replace("\n", " "), (m.get("needs_to_manifest") or "").replace("|", "\\|").replace("\n", " "), conf, rb))
 seeded = "\n".join(lines)
 p = os.path.join(V, "DESIGN.md")
 s = open(p).read()
